@@ -129,7 +129,7 @@ Qed.
 
 Definition index_chunks (p : period_t) (R : list Z) : list (list Z) :=
   [p_time p; fmtI 2 0; p_grid p; indx; fmtI 4 0; zero_e14; zero_e14; p_fixed p;
-   fmtI 3 (p_nx p); fmtI 3 (p_ny p); fmtI 3 (lenZ (p_levels p)); p_vsys2 p; fmtI 4 (lenh p);
+   fmtI 3 (p_nx p mod 1000); fmtI 3 (p_ny p mod 1000); fmtI 3 (lenZ (p_levels p)); p_vsys2 p; fmtI 4 (lenh p);
    enc_table (p_levels p); p_pad p; R].
 Lemma index_chunks_eq p R : enc_index p ++ R = concat (index_chunks p R).
 Proof. unfold enc_index, index_chunks. cbn [concat]. rewrite app_nil_r, <- !app_assoc. reflexivity. Qed.
@@ -137,14 +137,15 @@ Proof. unfold enc_index, index_chunks. cbn [concat]. rewrite app_nil_r, <- !app_
 Lemma index_fields p R : wf_period p = true ->
   let bs := enc_index p ++ R in
   slice 0 10 bs = p_time p /\ slice 12 2 bs = p_grid p
-  /\ slice 143 3 bs = fmtI 3 (p_nx p) /\ slice 146 3 bs = fmtI 3 (p_ny p)
+  /\ slice 143 3 bs = fmtI 3 (p_nx p mod 1000) /\ slice 146 3 bs = fmtI 3 (p_ny p mod 1000)
   /\ slice 149 3 bs = fmtI 3 (lenZ (p_levels p)) /\ slice 154 4 bs = fmtI 4 (lenh p)
   /\ slice 158 (lenh p - 108) bs = enc_table (p_levels p).
 Proof.
   intros H. destruct (wf_period_parts p H) as (Ht & Hg & Hf & Hv & Hx & Hy & Hz & Hh & Hfit & Hpad & Hl).
   pose proof (table_len_nonneg (p_levels p)) as Htl.
   destruct (fmt2 0 ltac:(lia)) as [L0 _]. destruct (fmt4 0 ltac:(lia)) as [L1 _].
-  destruct (fmt3 (p_nx p) ltac:(lia)) as [L2 _]. destruct (fmt3 (p_ny p) ltac:(lia)) as [L3 _].
+  destruct (wf_grid p H) as (_ & _ & Mx & My).
+  destruct (fmt3 (p_nx p mod 1000) ltac:(lia)) as [L2 _]. destruct (fmt3 (p_ny p mod 1000) ltac:(lia)) as [L3 _].
   destruct (fmt3 (lenZ (p_levels p)) ltac:(unfold lenZ in *; lia)) as [L4 _].
   destruct (fmt4 (lenh p) ltac:(unfold lenh in *; lia)) as [L5 _].
   pose proof (enc_table_len _ _ Hl) as Lt.
@@ -347,14 +348,13 @@ Proof.
   destruct (index_fields p0 (enc_lvls (p_time p0) (p_grid p0) 0 (p_levels p0) ++ concat (map enc_period rest)) W0)
     as (S0 & S12 & S143 & S146 & S149 & S154 & S158). cbn zeta in S0, S12, S143, S146, S149, S154, S158. rewrite <- Ebs in *.
   destruct (fmt4 (lenh p0) ltac:(unfold lenh in *; lia)) as [_ P154].
-  destruct (fmt3 (p_nx p0) ltac:(lia)) as [_ P143]. destruct (fmt3 (p_ny p0) ltac:(lia)) as [_ P146].
+  destruct (wf_grid p0 W0) as (Gx & Gy & Mx & My). unfold grid_thousands in Gx, Gy.
+  destruct (fmt3 (p_nx p0 mod 1000) ltac:(lia)) as [_ P143]. destruct (fmt3 (p_ny p0 mod 1000) ltac:(lia)) as [_ P146].
   destruct (fmt3 (lenZ (p_levels p0)) ltac:(unfold lenZ in *; lia)) as [_ P149].
   unfold lib_grid_ok in Hg. repeat (apply andb_true_iff in Hg as [Hg ?]).
-  assert (G0 : Z.max 0 ((nth 0 (p_grid p0) 0 - 64) * 1000) = 0) by lia.
-  assert (G1 : Z.max 0 ((nth 1 (p_grid p0) 0 - 64) * 1000) = 0) by lia.
   unfold impl_read. cbn [std_sizes ls_thd ls_vhd ls_off_grid ls_off_nx ls_off_ny ls_off_nz ls_off_lenh].
   rewrite S154, P154. cbn [obind]. rewrite S143, P143. cbn [obind]. rewrite S146, P146. cbn [obind].
-  rewrite S149, P149. cbn [obind]. rewrite S12. cbv zeta. rewrite G0, G1, !Z.add_0_r, S158.
+  rewrite S149, P149. cbn [obind]. rewrite S12. cbv zeta. rewrite Gx, Gy, S158.
   fold (ncell p0).
   rewrite (readvardef_table (ncell p0) (p_levels p0) Hl Htx). cbn [obind].
   rewrite !nrec_lent.
@@ -469,6 +469,7 @@ Qed.
 Lemma wf_winput_parts w : wf_winput w = true ->
   length (wi_grid w) = 2%nat /\ length (wi_fixed w) = 93%nat /\ length (wi_vsys2 w) = 2%nat
   /\ 0 <= wi_nx w <= 999 /\ 0 <= wi_ny w <= 999
+  /\ nth 0 (wi_grid w) 0 <= 64 /\ nth 1 (wi_grid w) 0 <= 64
   /\ forall p, In p (wi_periods w) -> wf_wperiod (wi_nx w) (wi_ny w) p = true.
 Proof.
   unfold wf_winput. intros H. split_andb H.
@@ -494,14 +495,18 @@ Qed.
 Lemma write_period_wf w p :
   wf_winput w = true -> In p (wi_periods w) -> wf_period (write_period w p) = true.
 Proof.
-  intros H Hin. destruct (wf_winput_parts w H) as (Hg & Hf & Hv & Hx & Hy & FA).
+  intros H Hin. destruct (wf_winput_parts w H) as (Hg & Hf & Hv & Hx & Hy & Hg0 & Hg1 & FA).
   destruct (wf_wperiod_parts _ _ p (FA p Hin)) as (Ht & Hl & Hh & Hfit & FL).
   pose proof (table_len_nonneg (write_levels p)) as Htl.
   assert (Ell : lenZ (write_levels p) = lenZ (wp_levels p)) by (unfold write_levels, lenZ; now rewrite map_length).
   assert (Epad : lenZ (repeat 32 (Z.to_nat (wi_nx w * wi_ny w - 108 - table_len (write_levels p))))
                  = wi_nx w * wi_ny w - (108 + table_len (write_levels p))).
   { unfold lenZ. rewrite repeat_length. lia. }
-  unfold wf_period, write_period, ncell, lenh, len_is.
+  assert (Gok : grid_ok (write_period w p) = true).
+  { unfold grid_ok, grid_thousands, write_period. cbn [p_grid p_nx p_ny].
+    rewrite (Z.div_small (wi_nx w) 1000), (Z.div_small (wi_ny w) 1000) by lia.
+    apply andb_true_iff; split; apply Z.eqb_eq; lia. }
+  unfold wf_period. rewrite Gok. unfold write_period, ncell, lenh, len_is.
   cbn [p_time p_grid p_fixed p_vsys2 p_nx p_ny p_levels p_pad].
   rewrite Ht, Hg, Hf, Hv, Ell, Epad, Z.eqb_refl. cbn [Nat.eqb andb].
   repeat (apply andb_true_iff; split); try (apply Z.leb_le; lia); try reflexivity.
@@ -538,7 +543,7 @@ Proof.
   unfold impl_write_fixed. split; [apply dec_enc; exact Wc|]. split.
   - rewrite gen_sizes_std, Ec. rewrite Ec in Wc. apply impl_read_spec; assumption.
   - intros p l f Hp Hl Hf. cbn zeta.
-    destruct (wf_winput_parts w Hw) as (_ & _ & _ & _ & _ & FA).
+    destruct (wf_winput_parts w Hw) as (_ & _ & _ & _ & _ & _ & _ & FA).
     destruct (wf_wperiod_parts _ _ p (FA p Hp)) as (_ & _ & _ & _ & FL).
     destruct (FL l Hl) as (_ & _ & FF).
     destruct (wf_wfield_parts _ _ f (FF f Hf)) as (_ & Hh & _ & _ & _ & H14 & _ & F & Hm).
@@ -552,4 +557,24 @@ Proof.
     destruct (roundtrip_half (wf_h f) (wf_rows f) ltac:(lia) H14 Hm) as (Wh & Bk & Ert).
     destruct (first_exact (wf_h f) (wf_rows f) ltac:(lia) H14) as [E1 _].
     repeat split; [exact Wh|rewrite Ert; exact E1|exact Bk].
+Qed.
+
+(* grid sizes: I3 field (number modulo 1000) + thousands letter CHAR(64 + n/1000) round-trip for
+   every size the letters '@'..'Z' can express; an ordinary grid id (any byte up to '@') serves
+   sizes below 1000 *)
+Lemma grid_size_roundtrip n g :
+  0 <= n <= 26999 -> (g = 64 + n / 1000 \/ (n < 1000 /\ g <= 64)) ->
+  length (fmtI 3 (n mod 1000)) = 3%nat
+  /\ (do z <- parseI (fmtI 3 (n mod 1000)); Some (z + grid_thousands g)) = Some n
+  /\ 64 <= 64 + n / 1000 <= 90.
+Proof.
+  intros Hn Hg. pose proof (Z.mod_pos_bound n 1000 ltac:(lia)) as Hm.
+  pose proof (Z.div_mod n 1000 ltac:(lia)) as Hd.
+  assert (Hq : 0 <= n / 1000 <= 26).
+  { split; [apply Z.div_pos; lia|]. assert (n / 1000 < 27) by (apply Z.div_lt_upper_bound; lia). lia. }
+  destruct (fmt3 (n mod 1000) ltac:(lia)) as [L P]. rewrite P. cbn [obind]. unfold grid_thousands.
+  split; [exact L|]. split; [|lia]. f_equal.
+  destruct Hg as [->|[Hs Hle]].
+  - replace (64 + n / 1000 - 64) with (n / 1000) by lia. lia.
+  - rewrite (Z.div_small n 1000) in Hd by lia. lia.
 Qed.
